@@ -251,6 +251,8 @@ def _has_ctx(items):
     for op, av in items:
         if op in (sre_c.ASSERT, sre_c.ASSERT_NOT):
             return True
+        if op is sre_c.AT and av is sre_c.AT_BOUNDARY:
+            return True
         if op is sre_c.BRANCH and any(_has_ctx(list(p)) for p in av[1]):
             return True
         if op is sre_c.SUBPATTERN and _has_ctx(list(av[3])):
@@ -258,6 +260,43 @@ def _has_ctx(items):
         if op in (sre_c.MAX_REPEAT, sre_c.MIN_REPEAT) and _has_ctx(list(av[2])):
             return True
     return False
+
+
+def _lastset(tr, items):
+    """(ranges of the characters a text of the item sequence can END with, can the sequence match the empty text?)"""
+    out, nullable = [], True
+    for op, av in reversed(list(items)):
+        if op is sre_c.LITERAL:
+            r, n = tr.lit_ranges(av), False
+        elif op is sre_c.NOT_LITERAL:
+            r, n = _complement_ranges(_merge(tr.lit_ranges(av))), False
+        elif op is sre_c.ANY:
+            r, n = _complement_ranges([(10, 10)]), False
+        elif op is sre_c.IN:
+            r, n = tr.cls(av), False
+        elif op is sre_c.BRANCH:
+            r, n = [], False
+            for p in av[1]:
+                r1, n1 = _lastset(tr, list(p))
+                r += r1
+                n = n or n1
+        elif op is sre_c.SUBPATTERN:
+            r, n = _lastset(tr, list(av[3]))
+        elif op in (sre_c.MAX_REPEAT, sre_c.MIN_REPEAT):
+            r, n = _lastset(tr, list(av[2]))
+            n = n or av[0] == 0
+        else:
+            raise Unsupported('last character of %s' % (op,))
+        out += r
+        if not n:
+            nullable = False
+            break
+    return _merge(out), nullable
+
+
+def _subset(ranges, of):
+    of = _merge(list(of))
+    return all(any(a >= c and b <= d for c, d in of) for a, b in ranges)
 
 
 def _and(a, b):
@@ -292,6 +331,15 @@ def _ctx_seq(tr, items, at_start):
             return out
         if op in (sre_c.MAX_REPEAT, sre_c.MIN_REPEAT) and _has_ctx(list(av[2])):
             raise Unsupported('look-around inside a repetition')
+        if op is sre_c.AT and av is sre_c.AT_BOUNDARY:
+            # \\b as the LAST item, behind a text that always ends in a word character: the next character is not one
+            if items[i + 1:] or not items[:i]:
+                raise Unsupported('\\b that is not at the end of the pattern')
+            pre = tr.seq(items[:i], False)
+            last, nullable = _lastset(tr, items[:i])
+            if nullable or not _subset(last, category_ranges('word')):
+                raise Unsupported('\\b behind a text that may end in a non-word character')
+            return [(None, pre, ((tuple(category_ranges('word')), True),))]
         if op in (sre_c.ASSERT, sre_c.ASSERT_NOT):
             direction, p = av
             rs = _single_class(tr, p)
